@@ -180,6 +180,32 @@ def feeds_since_reset(ops, outs, slot='a'):
     return [(op[2], o) for i, (op, o) in enumerate(zip(ops, outs)) if i > last and op[0] in ('feed', 'feed_di', 'pipe') and op[1] == slot]
 
 
+def lineage_feeds(ops, outs, slot):
+    """the (value, output) sequence that determines `slot`'s current state: follows clone ancestry, restarts at a reset"""
+    lists = {}
+    for op, o in zip(ops, outs):
+        k = op[0]
+        if k in ('new', 'default'): lists[op[1]] = []
+        elif k in ('feed', 'feed_di', 'pipe'): lists.setdefault(op[1], []).append((op[2], o))
+        elif k == 'reset': lists[op[1]] = []
+        elif k == 'clone': lists[op[2]] = list(lists.get(op[1], []))
+    return lists.get(slot, [])
+
+
+def with_clone_at(ops, k, slot='a', dst='c'):
+    """[new, feeds..] -> first k feeds on `slot`, clone into `dst`, remaining feeds on `dst`"""
+    out, cnt = [ops[0]], 0
+    cloned = False
+    for op in ops[1:]:
+        if op[0] == 'feed' and op[1] == slot:
+            if cnt == k and not cloned:
+                out.append(('clone', slot, dst)); cloned = True
+            out.append(('feed', dst if cloned else slot, op[2])); cnt += 1
+        else:
+            out.append(op)
+    return out
+
+
 def with_reset_prefix(ops, prefix_values, slot='a'):
     """[new, feeds..] -> [new, feed prefix.., reset, feeds..]"""
     return [ops[0]] + [('feed', slot, v) for v in prefix_values] + [('reset', slot)] + list(ops[1:])
@@ -334,6 +360,8 @@ def validate_translator(mir, specs, seed, n_streams=2, length=9):
                     outs, _ = run_ops_r(ex, ops)
                 except PathDead:
                     continue                     # e.g. 0/0 on a tie: not a translator question
+                except Unsupported as e:
+                    problems.append('%s %s: R cannot encode: %r' % (name, mode, e)); break
                 lines, nat = run_ops_native(concretize_ops(ops, None))
                 count += 1
                 for o, no in zip(outs, nat):
